@@ -183,11 +183,14 @@ def descendant_holder(mode: int, holder: int, tgt: int, nm: int, follow: int) ->
         G.new_cells("gf", formula="lambda: n + 2")
         O = m.new_space(on)
         O.new_cells("of", formula="lambda: 3")
+        DS = D.new_space("DS", bases=DC)          # a sibling child space DERIVING the holder DC (its cells and references, not its child spaces)
         H = DC if holder == 0 else G
         hpath = ("DC",) if holder == 0 else ("DC", "G")
         targets = [(D, ()), (D.df, ("df",)), (DC, ("DC",)), (DC.dcf, ("DC", "dcf")), (H, hpath), (O, None), (O.of, None)]
         target, rel = targets[tgt]
     c = call(H.set_ref, "r", target, mode)
+    if mode == "relative" and c[0] == "err" and holder == 0 and tgt in (0, 1):
+        return True                       # out of scope for the deriving sibling DS: refused
     if mode == "relative" and rel is None:
         if c[0] == "err":
             return True
@@ -220,6 +223,21 @@ def descendant_holder(mode: int, holder: int, tgt: int, nm: int, follow: int) ->
                 detail = (getattr(rr[1], "fullname", repr(rr[1])), exp.fullname)
             if not check(ok, "reference held by a descendant denotes the corresponding object of the dynamic tree", lambda: detail):
                 return False
+            if holder == 0 and step == 0:
+                # the same reference as DERIVED by the sibling DS: relative to DS where the target is DC or its cells, and - like
+                # every reference to an object inside the tree - bound to the corresponding object of the dynamic tree
+                dr = call(lambda: it[1].DS.r)
+                if mode == "absolute" or rel is None:
+                    dexp = target
+                elif tgt in (0, 1):
+                    dexp = _get(it[1], rel)
+                else:
+                    dexp = _get(it[1], ("DS",) + tuple(rel[1:]))
+                with notrace():
+                    okd = dr[0] == "ok" and dr[1] is dexp
+                    ddetail = (dr[0], getattr(dr[1], "fullname", repr(dr[1])), dexp.fullname)
+                if not check(okd, "the reference as derived by a sibling space inside the ItemSpace denotes the corresponding object of the dynamic tree", lambda: ddetail):
+                    return False
             if tgt in (0, 1) and mode != "absolute":       # and it computes with the instance's parameter
                 v = call(lambda: (rr[1].df if tgt == 0 else rr[1])())
                 if not check(v[0] == "ok" and v[1] == arg, "rebound reference evaluates inside the instance", lambda: v):
